@@ -36,7 +36,7 @@ COMPONENTS = {
     "stub": [],
 }
 TIERS = {
-    "quick": {"histories": 32, "jobs": 30, "budget_s": 150, "timeout": 600, "batch": 32},
+    "quick": {"histories": 64, "jobs": 30, "budget_s": 170, "timeout": 600, "batch": 32},
     "thorough": {"histories": 10 ** 6, "jobs": 40, "budget_s": 6000, "timeout": 900, "batch": 64, "exhaustive": True},
 }
 
